@@ -6,7 +6,7 @@ NOTE = ("Trusted: Coq kernel + vm_compute; the harness (module generator, finger
         "read back from the real output with wasmparser; wasmparser's validator for 'the output validates'). Modelled, not verified: mod.rs reorganise_generic, "
         "get_mapping_generic, recalculate_ids, add_import/add_*/delete_*/convert_* and the index rewriting of encode_internal.")
 def mk(pid, thms, rule, text, n=1600, tn=30000):
-    return dict(engine="reindex", gen=(["GenRefers"] if pid in ("C06", "C07", "C08") else []), check_targets=["Check/CheckReidx.vo"], proof_targets=["Props/%s.vo" % pid],
+    return dict(engine="reindex", gen=(["GenRefers"] if pid in ("C06", "C07", "C08") else []), thorough_flags=["--exhaustive"], check_targets=["Check/CheckReidx.vo"], proof_targets=["Props/%s.vo" % pid],
                 theorems=[(pid, t) for t in thms], quick=dict(n=n), thorough=dict(n=tn), per_shard=300,
                 rule=rule, level_text=text, level_note=NOTE, trusted_base=TB,
                 technique="Coq theorems about the index-space model + abstract handle specification evaluated in Coq on the real output + refutation witnesses",
